@@ -19,6 +19,7 @@ type harnessSpec struct {
 	PkgDir   string // relative to the repo root
 	Template string // file under /verif/replay
 	FileName string // virtual file name inside the package directory
+	GOARCH   string // when set: the test binary is built for (and run as) this architecture
 }
 
 var harnesses = map[string]harnessSpec{
@@ -29,6 +30,8 @@ var harnesses = map[string]harnessSpec{
 	"arch":   {PkgDir: "arch", Template: "arch_replay_test.go.txt", FileName: "zz_verif_arch_replay_test.go"},
 	"profiler": {PkgDir: "cmd/seccomp-profiler", Template: "profiler_replay_test.go.txt", FileName: "zz_verif_profiler_replay_test.go"},
 	"sandbox":  {PkgDir: "cmd/sandbox", Template: "sandbox_replay_test.go.txt", FileName: "zz_verif_sandbox_replay_test.go"},
+	// the policy family compiled for a 32-bit target and run on this machine (C19: the compiler is target independent)
+	"policy386": {PkgDir: ".", Template: "policy_replay_test.go.txt", FileName: "zz_verif_policy_replay_test.go", GOARCH: "386"},
 }
 
 // runOverlayTest runs `go test -overlay` in the package with the harness injected.
@@ -62,6 +65,9 @@ func (e *Engine) runOverlayTest(h harnessSpec, testName string, env map[string]s
 	}
 	for k, v := range env {
 		cmd.Env = append(cmd.Env, k+"="+v)
+	}
+	if h.GOARCH != "" {
+		cmd.Env = append(cmd.Env, "GOARCH="+h.GOARCH)
 	}
 	var out bytes.Buffer
 	cmd.Stdout = &out
@@ -115,18 +121,18 @@ var propHarness = map[string]string{
 }
 
 // propHarness2: a second family for properties that span two packages.
-var propHarness2 = map[string]string{"C14": "sandbox"}
+var propHarness2 = map[string]string{"C14": "sandbox", "C19": "policy386"}
 
 // kindsFor: which disagreement kinds of the family count as a failing input for the property.
 var kindsFor = map[string][]string{
 	"C01": {"decision", "fault"}, "C02": {"decision"}, "C03": {"decision"}, "C04": {"decision", "fault"},
 	"C05": {"kernel-verifier", "return-set", "fault"}, "C06": {"decision", "fault", "valid-rejected"},
 	"C07": {"panic", "invalid-accepted", "error-with-program", "valid-rejected"},
-	"C15": {"policy-truncated", "config-parse", "roundtrip-assemble"},
-	"C14": {"roundtrip", "marshal", "config-parse", "config-unpack", "roundtrip-assemble", "action-roundtrip", "operation-roundtrip", "unknown-action", "action-accepts-garbage", "operation-case", "action-case"},
-	"C13": {"nondeterministic-text", "caller-policy-modified", "compile-differs", "recompile-differs", "compilations-influence-each-other", "result-overwritten"},
+	"C15": {"policy-truncated", "config-parse", "roundtrip-assemble", "ran-after-failure", "target-outside-policy", "target-not-run"},
+	"C14": {"roundtrip", "marshal", "config-parse", "config-unpack", "roundtrip-assemble", "action-roundtrip", "operation-roundtrip", "unknown-action", "action-accepts-garbage", "operation-case", "action-case", "unknown-name-accepted"},
+	"C13": {"nondeterministic-text", "caller-policy-modified", "compile-differs", "recompile-differs", "compilations-influence-each-other", "result-overwritten", "text-results-share-memory"},
 	"C12": {"inverse", "alias", "unsupported", "panic"},
-	"C19": {"unsupported", "panic"},
+	"C19": {"unsupported", "panic", "decision", "fault", "valid-rejected", "kernel-verifier"},
 	"C17": {"incomplete-cache-reused", "failed-run-no-error", "complete-cache-not-reused"},
 	"C18": {"profile-set"},
 	"C16": {"panic", "silent-truncation", "bad-name", "not-monotone", "cross-function"},
